@@ -241,9 +241,19 @@ class WorldGen(object):
                                                                                           if tgt in homes else "n0"))
                       if not x.startswith(("http", "/", "#"))]
                 if sp:
+                    rel = rng.choice(sp)
                     root.setdefault("definitions", {})["nest"] = {
-                        self.idkw: "folder/", "definitions": {"inner": {"$ref": rng.choice(sp)}}}
-                    root.setdefault("properties", {})["zz"] = {"$ref": "#/definitions/nest/definitions/inner"}
+                        self.idkw: "folder/", "definitions": {"inner": {"$ref": rel}},
+                        # ... and an id-bearing subschema BELOW it that is reached on two routes: through its parent
+                        # (base <root>/folder/deep/) and by a pointer that jumps over the parent (base <root>/deep/)
+                        "properties": {"w": {self.idkw: "deep/", "$ref": rel}}}
+                    props = root.setdefault("properties", {})
+                    props["zz"] = {"$ref": "#/definitions/nest/definitions/inner"}
+                    if rng.random() < 0.7:
+                        props["c"] = {"$ref": "#/definitions/nest"}
+                        jump = "a" if rng.random() < 0.5 else "zz"
+                        props[jump] = {"$ref": "#/definitions/nest/properties/w"}
+                        self.route_instances = [{"c": {"w": rng.choice([1, "s", None])}}, {jump: rng.choice([1, "s", None])}]
         docs = {}
         for u in self.doc_urls:
             doc = {}
@@ -268,6 +278,8 @@ class WorldGen(object):
         store_keys = dict((u, u + "#" if rng.random() < 0.4 else u) for u in store_docs)
         instances = [self.instance(k.inst_depth, top=True) if rng.random() < 0.5
                      else self.directed(root, docs, root, k.inst_depth + 2) for _ in range(k.ninstances)]
+        for ri in getattr(self, "route_instances", ()):
+            instances[rng.randrange(len(instances))] = ri      # one instance per route to the two-route subschema
         if rng.random() < 0.5:
             # a twin of an earlier instance that differs only in JSON *type* where Python calls the values equal
             # (1 / 1.0 / true, 0 / 0.0 / false): whatever a validator remembers about one must not leak to the other
